@@ -178,6 +178,18 @@ class G:
         self.ex.probe("ai_edit.two_files")
         return a
 
+    def ai_twin_files(self):
+        """an agent writes two new files with byte-identical content in one report (a second __init__.py, a copied
+        config): content-addressed snapshots of the two files coincide"""
+        a = self.edit(self.pick_session(), new_file=True, max_block=6)
+        pa = sorted(a["files"])[0]
+        pb = "twin%d/%s" % (self.ex.fresh_id(), os.path.basename(pa) or "t.txt")
+        a["files"][pb] = a["files"][pa]
+        a.pop("dirty", None)
+        self.twins_done = True
+        self.ex.probe("ai_edit.twin_files")
+        return a
+
     def human_edit(self, **kw):
         return self.edit(HUMAN, **kw)
 
@@ -187,7 +199,17 @@ class G:
         batch = ["ai"] * rng.randint(*n_ai) + ["human"] * rng.randint(*n_human)
         rng.shuffle(batch)
         for b in batch:
-            if b == "ai" and rng.random() < 0.15:
+            if self.cfg.get("stage_as_you_go") and rng.random() < 0.35:
+                # people stage as they go: staged files are in the scope of every later checkpoint
+                r = self.w.raw_git(self.repo, "status", "--porcelain", "-z")
+                changed = sorted(set(x[3:] for x in r.out.split("\0") if x and len(x) > 3 and x[1] != " "))
+                changed = [c for c in changed if self.w.read(self.repo, c) is not None]
+                if changed:
+                    self.ex.probe("stage_as_you_go")
+                    yield self.git("add", "--", rng.choice(changed))
+            if b == "ai" and self.hz.get("twins") and not getattr(self, "twins_done", False) and path is None and rng.random() < 0.5:
+                yield self.ai_twin_files()
+            elif b == "ai" and rng.random() < 0.15:
                 yield self.ai_edit_two_files(path=path, pos=pos, kinds=ai_kinds or ["insert", "insert", "replace", "modify", "append"])
             elif b == "ai":
                 yield self.ai_edit(path=path, pos=pos, kinds=ai_kinds or ["insert", "insert", "replace", "modify", "append"])
@@ -542,6 +564,29 @@ def fam_stash_two(g):
             yield g.git("reset", "-q")
             yield g.git("stash", "drop", "-q")
         yield from g.commit_all()
+
+
+def fam_staged_mix(g):
+    """an agent works in one file; a person then edits that file and another one that no agent has touched, without
+    any checkpoint, and stages both; the agent goes on in the second file; commit"""
+    rng = g.rng
+    files = g.worktree_files()
+    while len(files) < 2:
+        yield g.human_edit(new_file=True)
+        yield from g.commit_all()
+        files = g.worktree_files()
+    f, h = rng.sample(files, 2)
+    yield g.ai_edit(path=f, kinds=["insert", "append", "replace"])
+    yield g.human_edit(path=f, kinds=["insert", "append", "modify"], pre_ckpt=False)
+    yield g.human_edit(path=h, kinds=["insert", "append"], pre_ckpt=False)
+    if rng.random() < 0.8:
+        yield g.git("add", "--", f, h) if rng.random() < 0.5 else g.git("add", "-A")
+    if rng.random() < 0.5:
+        yield g.git("status", "--porcelain")
+    yield g.ai_edit(path=h, kinds=["insert", "append"])
+    if rng.random() < 0.4:
+        yield g.human_edit(path=rng.choice([f, h]), kinds=["insert", "append"], pre_ckpt=rng.random() < 0.5)
+    yield from g.commit_all()
 
 
 def fam_switch_carry(g):
@@ -1236,6 +1281,7 @@ FAMILIES = {
     "two_file_report": fam_two_file_report,
     "worktree_rebases": fam_worktree_rebases,
     "stash_two": fam_stash_two,
+    "staged_mix": fam_staged_mix,
 }
 
 # families whose outcome no property promises two-sidedly (a reverted-and-restored or renamed line)
